@@ -199,7 +199,21 @@ func (g *progGen) expr(d int) string {
 func (g *progGen) rare(d int) string {
 	r := g.r
 	e := func() string { return g.expr(d - 1) }
-	switch r.intn(36) {
+	switch r.intn(39) {
+	case 36, 37, 38:
+		// a name bound to a constant of every kind (the parser inlines such names as constant nodes),
+		// used in every position a name can appear in
+		val := pick(r, "7", "\"s\"", "2.5", "true", "[1,2]", "{a:1}", "x->x*2", "numbers(3)", "[[1],{b:2}]", "{f:x->x}", "\"\"", "[]", "{}", "(x,y)->x", "numbers(3).map(x->x)", "1/0", "0/0")
+		def := "let cq=" + val + "; "
+		if r.chance(0.2) {
+			def = "func cq(x) " + pick(r, "x*2", "cq(x)", "[x]", "{a:x}") + "; "
+		}
+		use := pick(r, "switch a case cq:1 default 0", "switch cq case 1:1 case a:2 default 0", "switch a case 1:1 case cq:2 case cq:3 default 0",
+			"{k:cq}.k", "[cq][0]", "cq=a", "a~cq", "cq~a", "cq(a)", "cq.size()", "if cq then 1 else 0", "try cq catch 0", "try a catch cq",
+			"[1,2].map(e->switch e case 1:1 case cq:2 default 0)", "cq+cq", "a[cq]", "{cq:1}", "cq.cq", "sprintf(\"%v\",cq)",
+			"let d=cq; switch a case d:1 default 0", "cq<a", "min(cq,a)", "[cq,cq].order(x->x)", "[cq,a].groupByEqual(x->x)", "{a:cq}={a:cq}",
+			"numbers(3).map(x->cq)", "cq.map(x->x)", "string(cq)", "[cq] ~ [cq]", "switch true case cq: 1 default 0", "-cq", "!cq", "cq^cq", "cq%cq")
+		return def + use
 	case 0:
 		return "f()" // unknown function, empty argument list
 	case 1:
@@ -424,6 +438,14 @@ func genParseText(r *rng, kind string, maxLen int) ([]byte, string) {
 			text = "let c=" + pick(r, consts...) + "; " + strings.ReplaceAll(text, "zz", "c")
 		}
 		return []byte(text), "const-chain"
+	case c == 18:
+		// names of constants of every kind in every position (top level, so that the let is valid)
+		for k := 0; k < 50; k++ {
+			if t := g.rare(2); strings.HasPrefix(t, "let cq=") || strings.HasPrefix(t, "func cq(") {
+				return []byte(t), "const-names"
+			}
+		}
+		return []byte(valid()), "valid"
 	case c == 19 && r.chance(0.5):
 		// long postfix / operator chains
 		unit := pick(r, "(1)", "[0]", ".a", ".size()", "+1", "*a", "-a-1", "&true", "(a)(b)", ".map(x->x)", "²", " a")
